@@ -532,6 +532,11 @@ class ExprMixin:
         base = self.res(base_id, st)
         if base.op == "Phi" and self.const_key(idx) is not self.NOKEY:
             base = self.select_by_pc(base, st)
+        if base.op == "Obj" and base.extra and "tuple_fields" in base.extra and idx.op == "Const" and \
+                isinstance(idx.attr, int) and not isinstance(idx.attr, bool):
+            tf = base.extra["tuple_fields"]
+            if -len(tf) <= idx.attr < len(tf):
+                return tf[idx.attr]
         if base.op in ("Tuple", "List") and not any(a.op == "Starred" for a in base.args):
             if idx.op == "Const" and isinstance(idx.attr, int) and not isinstance(idx.attr, bool):
                 if -len(base.args) <= idx.attr < len(base.args):
